@@ -4,6 +4,22 @@ import re
 from collections import defaultdict
 
 
+def type_head(ty):
+    """`&'a frost_core::keys::SigningShare<C>` -> ('&', 'frost_core::keys::SigningShare')"""
+    ty = ty.strip()
+    refs = ""
+    while ty.startswith("&"):
+        refs += "&"
+        ty = ty[1:].strip()
+        if ty.startswith("'"):
+            ty = ty.split(" ", 1)[1] if " " in ty else ty
+        if ty.startswith("mut "):
+            ty = ty[4:]
+    i = ty.find("<")
+    head = ty if i < 0 or ty.startswith("<") else ty[:i]
+    return (refs, head)
+
+
 class Block:
     __slots__ = ("i", "stmts", "term", "cleanup")
 
@@ -186,6 +202,83 @@ class Fn:
             self._defs = d
         return self._defs
 
+    def rpo(self):
+        """reverse post-order numbering of normal-flow blocks (program order for straight-line code)"""
+        if getattr(self, "_rpo", None) is None:
+            seen = set()
+            order = []
+            sc = self.succs()
+            stack = [(0, iter(sorted(t for t, _ in sc.get(0, []))))] if self.blocks else []
+            seen.add(0)
+            while stack:
+                n, it = stack[-1]
+                adv = False
+                for t in it:
+                    if t not in seen:
+                        seen.add(t)
+                        stack.append((t, iter(sorted(x for x, _ in sc[t]))))
+                        adv = True
+                        break
+                if not adv:
+                    order.append(n)
+                    stack.pop()
+            order.reverse()
+            self._rpo = {b: i for i, b in enumerate(order)}
+        return self._rpo
+
+    def ref_roots(self):
+        """local -> set of locals it may point to / be a copy of a pointer to (through &, &mut, reborrow, moves of
+        references, pointer casts)"""
+        if getattr(self, "_roots", None) is None:
+            roots = {}
+            for l, ds in self.defs().items():
+                for d in ds:
+                    if d[0] != "assign":
+                        continue
+                    rv = d[3]
+                    if rv["k"] in ("ref", "rawptr"):
+                        roots.setdefault(l, set()).add(rv["place"]["l"])
+                    elif rv["k"] in ("use", "cast"):
+                        op = rv["op"]
+                        src = op.get("copy") or op.get("move")
+                        ty = self.local_ty(l)
+                        if src is not None and (ty.startswith("&") or ty.startswith("*")):
+                            roots.setdefault(l, set()).add(src["l"])
+            changed = True
+            while changed:
+                changed = False
+                for l, rs in list(roots.items()):
+                    for r in list(rs):
+                        for rr in roots.get(r, ()):
+                            if rr not in rs:
+                                rs.add(rr)
+                                changed = True
+            self._roots = roots
+        return self._roots
+
+    def mutations(self):
+        """local -> [(bb, term)] calls that receive a `&mut` reference to it (in-place updates), in program order"""
+        if getattr(self, "_muts", None) is None:
+            roots = self.ref_roots()
+            m = defaultdict(list)
+            for bb, t, ci in self.calls():
+                for i, (a, aty) in enumerate(zip(t["args"], t.get("arg_tys", []))):
+                    if not aty.startswith("&mut"):
+                        continue
+                    p = a.get("move") or a.get("copy")
+                    if not p:
+                        continue
+                    tg = set(roots.get(p["l"], set()))
+                    for r in tg:
+                        ty = self.local_ty(r)
+                        if not (ty.startswith("&") or ty.startswith("*")):
+                            m[r].append((bb, t, i))
+            rpo = self.rpo()
+            for l in m:
+                m[l].sort(key=lambda x: rpo.get(x[0], 1 << 30))
+            self._muts = m
+        return self._muts
+
     def calls(self, normal_only=True):
         nb = self.normal_blocks() if normal_only else None
         for b in self.blocks:
@@ -256,6 +349,17 @@ class Program:
         """callee-info -> list of workspace Fn objects that may run (empty if external)."""
         if ci is None:
             return []
+        if (ci.get("trait") or "").endswith("::Into") and ci.get("name") == "into" and len(ci.get("gargs", [])) == 2:
+            # blanket `impl Into<U> for T where U: From<T>`: follow to the workspace From impl
+            src, dst = type_head(ci["gargs"][0]), type_head(ci["gargs"][1])
+            out = []
+            for (im, k) in self.trait_impls.get(("core::convert::From", "from"), []):
+                if type_head(im["self_ty"]) == dst and im.get("trait_args") and type_head(im["trait_args"][0]) == src:
+                    f = self.fns.get(k)
+                    if f is not None and f.has_body:
+                        out.append(f)
+            if out:
+                return out
         for k in (ci.get("resolved"), ci.get("path")):
             if k and k in self.fns and self.fns[k].has_body:
                 f = self.fns[k]
